@@ -3,6 +3,7 @@ package main
 // Contract expression evaluation: Expr → Term in an environment.
 
 import (
+	"os"
 	"fmt"
 	"go/token"
 	"go/types"
@@ -231,7 +232,11 @@ func (e *Env) eval(x *Expr) Val {
 		lo := e.int(x.Lo)
 		hi := e.int(x.Hi)
 		n.vars[x.Var] = intVal(k)
+		if os.Getenv("GOVC_NOOUTER") == "" {
+			outerBound[k.Name] = true
+		}
 		body := n.bool(x.Args[0])
+		delete(outerBound, k.Name)
 		return boolVal(MkQuant(x.Op == "forall", k, lo, hi, body))
 	case "call":
 		return e.call(x)
